@@ -240,7 +240,12 @@ def histories(draw):
     n = draw(st.integers(4, 18))
     for k in range(n):
         op = M.draw_op(draw, d.model, k + 11)
-        if d.step(op) == "abort":
+        stop = False
+        for one in (op if isinstance(op, list) else [op]):
+            if d.step(one) == "abort":
+                stop = True
+                break
+        if stop:
             break
     return d.ops
 
